@@ -4,7 +4,7 @@ working tree into Lean definitions over the model's state types (lean/UbxModel/G
 
     pysrc2lean.py <repo> <outfile>
 
-Covered: `Checksum` (add / reset / value / matches), `UbxParser` (_process_byte and the nine _state_* methods,
+Covered: static helpers of `CfgKeyData` (key-id bit fields, size tables; in the Except monad), `Checksum` (add / reset / value / matches), `UbxParser` (_process_byte and the nine _state_* methods,
 _reset, process, restart, set_filter, set_filters, empty_queue), `NmeaParser` (_process_byte, the five _state_*
 methods, _reset, _to_bin, process, restart), `UbxFrame` (_calc_checksum, to_bytes).  `Proofs/SrcEquiv.lean` proves
 each generated definition equal to the hand-written model; so, as long as those proofs check, the theorems about the
@@ -68,6 +68,106 @@ SCHEMA = {
         'cid': True,
     },
 }
+# static pure helpers of CfgKeyData: translated in the Except monad (KeyError / IndexError / ValueError as values)
+PURE = {
+    'CfgKeyData': {
+        'file': 'cfgkeys.py',
+        'methods': ['_bits_from_key', '_bytes_for_size', '_group_from_key', '_item_from_key', '_build_header'],
+        'tables': {'CfgKeyData.BITS_FROM_SIZE': ('list', 'Gen.bitsFromSize'), 'CfgKeyData.SIZE_FROM_BITS': ('dict', 'Gen.sizeFromBits'),
+                   'CfgKeyData.BYTES_FROM_BITS': ('dict', 'Gen.bytesFromBits')},
+    },
+}
+
+
+class PureTranslator:
+    """`@staticmethod` helpers that compute with integers and class-level tables; result type `Except Ubx.Exc Nat`"""
+
+    def __init__(self, cls, node):
+        self.cls, self.node, self.P = cls, node, PURE[cls]
+        self.locals = set()
+
+    def table(self, n):
+        src = ast.unparse(n).replace('__class__', self.cls).replace('cls.', self.cls + '.')
+        return self.P['tables'].get(src)
+
+    def expr(self, n):
+        if isinstance(n, ast.Constant) and isinstance(n.value, int) and not isinstance(n.value, bool) and n.value >= 0:
+            return str(n.value)
+        if isinstance(n, ast.Name) and n.id in self.locals:
+            return n.id
+        if isinstance(n, ast.BinOp) and type(n.op) in BINOPS:
+            return f'({self.expr(n.left)} {BINOPS[type(n.op)]} {self.expr(n.right)})'
+        fail(n, 'expression')
+
+    def lookup(self, n, on_key_error):
+        """TABLE[key] -> an Except value; on_key_error: the exception a missing key ends in"""
+        if isinstance(n, ast.Subscript):
+            t = self.table(n.value)
+            if t:
+                kind, lean = t
+                key = self.expr(n.slice)
+                if kind == 'list':
+                    return f'(Py.listIndex {lean} {key})'
+                return f'(Py.dictGet {lean} {key} {on_key_error})'
+        return None
+
+    def block(self, stmts, ind):
+        if not stmts:
+            fail(self.node, 'function may end without return')
+        s, rest = stmts[0], stmts[1:]
+        pad = ' ' * ind
+        if isinstance(s, ast.Expr) and isinstance(s.value, ast.Constant):
+            return self.block(rest, ind)
+        if isinstance(s, ast.Return):
+            lk = self.lookup(s.value, '.keyError')
+            return lk if lk else f'pure {self.expr(s.value)}'
+        if isinstance(s, ast.Raise):
+            name = ast.unparse(s.exc) if s.exc else ''
+            if name.startswith('ValueError'):
+                return '.error .valueError'
+            fail(s, 'raise')
+        if isinstance(s, ast.Assign) and len(s.targets) == 1 and isinstance(s.targets[0], ast.Name):
+            name = s.targets[0].id
+            lk = self.lookup(s.value, '.keyError')
+            self.locals.add(name)
+            if lk:
+                return f'do\n{pad}  let {name} ← {lk}\n{pad}  {self.block(rest, ind + 2)}'
+            return f'let {name} := {self.expr(s.value)}\n{pad}{self.block(rest, ind)}'
+        if isinstance(s, ast.AugAssign) and isinstance(s.target, ast.Name) and s.target.id in self.locals and type(s.op) in BINOPS:
+            return f'let {s.target.id} := {s.target.id} {BINOPS[type(s.op)]} {self.expr(s.value)}\n{pad}{self.block(rest, ind)}'
+        if isinstance(s, ast.Try) and len(s.body) == 1 and len(s.handlers) == 1 and not s.orelse and not s.finalbody:
+            h = s.handlers[0]
+            a = s.body[0]
+            if (h.type is not None and ast.unparse(h.type) == 'KeyError' and len(h.body) == 1 and isinstance(h.body[0], ast.Raise)
+                    and ast.unparse(h.body[0].exc).startswith('ValueError') and isinstance(a, ast.Assign)
+                    and len(a.targets) == 1 and isinstance(a.targets[0], ast.Name)):
+                lk = self.lookup(a.value, '.valueError')
+                if lk:
+                    name = a.targets[0].id
+                    self.locals.add(name)
+                    return f'do\n{pad}  let {name} ← {lk}\n{pad}  {self.block(rest, ind + 2)}'
+            fail(s, 'try/except of unknown shape')
+        if isinstance(s, ast.If) and not rest:
+            t = s.test
+            if isinstance(t, ast.Compare) and len(t.ops) == 1 and isinstance(t.ops[0], ast.In) and self.table(t.comparators[0]):
+                kind, lean = self.table(t.comparators[0])
+                cond = f'(Py.dictHas {lean} {self.expr(t.left)})'
+                return f'if {cond} then\n{pad}    {self.block(s.body, ind + 4)}\n{pad}  else\n{pad}    {self.block(s.orelse, ind + 4)}'
+            fail(s, 'condition')
+        fail(s, 'statement')
+
+    def method(self, name):
+        fn = next((n for n in self.node.body if isinstance(n, ast.FunctionDef) and n.name == name), None)
+        if fn is None:
+            fail(self.node, f'method {name} not found')
+        if not any(ast.unparse(d) == 'staticmethod' for d in fn.decorator_list):
+            fail(fn, 'not a staticmethod')
+        args = [a.arg for a in fn.args.args]
+        self.locals = set(args)
+        sig = ' '.join(f'({a} : Nat)' for a in args)
+        return f'def {lname(name)} {sig} : Except Ubx.Exc Nat :=\n  {self.block(fn.body, 2)}\n'
+
+
 ORDER = {  # emission order (callees first)
     'Checksum': ['reset', 'add', 'value', 'matches'],
     'UbxParser': ['_reset', '_state_init', '_state_sync', '_state_class', '_state_id', '_state_len1', '_state_len2', '_state_data',
@@ -405,6 +505,8 @@ HEADER = '''import UbxModel.Model.ParserUbx
 import UbxModel.Model.ParserNmea
 import UbxModel.Model.Frame
 import UbxModel.Model.PyPrims
+import UbxModel.Model.Codec
+import UbxModel.Gen.Keys
 /-! GENERATED by tools/pysrc2lean.py from the Python source of the working tree of /repo - do not edit.
     Control logic of the small pure classes, statement by statement, over the model's state types.
     `Proofs/SrcEquiv.lean` proves these definitions equal to the hand-written model. -/
@@ -422,6 +524,17 @@ def translate(repo):
             node = next(n for n in ast.walk(tree) if isinstance(n, ast.ClassDef) and n.name == cls)
             t = Translator(cls, node, consts)
             defs = [t.method(m) for m in ORDER[cls]]
+            out.append(f'namespace Gen.Src.{cls}\n\n' + '\n'.join(defs) + f'\nend Gen.Src.{cls}\n')
+            status[cls] = 'ok'
+        except (Untranslatable, StopIteration, SyntaxError, OSError) as e:
+            status[cls] = 'untranslatable: ' + str(e)
+            out.append(f'/- {cls}: outside the translatable subset - {str(e).replace("-/", "- /")} -/\n')
+    for cls, P in PURE.items():
+        try:
+            tree = ast.parse(open(os.path.join(repo, 'ubxlib', P['file'])).read())
+            node = next(n for n in ast.walk(tree) if isinstance(n, ast.ClassDef) and n.name == cls)
+            t = PureTranslator(cls, node)
+            defs = [t.method(m) for m in P['methods']]
             out.append(f'namespace Gen.Src.{cls}\n\n' + '\n'.join(defs) + f'\nend Gen.Src.{cls}\n')
             status[cls] = 'ok'
         except (Untranslatable, StopIteration, SyntaxError, OSError) as e:
